@@ -188,6 +188,16 @@ func texts(alpha []string, maxLen int, keep func(Text) bool) []Text {
 	return out
 }
 
+// invalidKeys: every byte string of length <= n over AlphaBytes that is not valid UTF-8 (a key
+// may be any byte string; no pattern made of runes starts with such a key).
+func invalidKeys(n int) []string {
+	var out []string
+	for _, t := range texts(AlphaBytes, n, func(t Text) bool { return !t.Valid }) {
+		out = append(out, t.S)
+	}
+	return out
+}
+
 func dedupTexts(in []Text) []Text {
 	seen := map[string]bool{}
 	var out []Text
@@ -410,9 +420,9 @@ func Families(b Bounds) []*Family {
 
 	fs = append(fs, &Family{
 		Name: "bytes",
-		Desc: fmt.Sprintf("the widths pattern sets (1..%d patterns of 0..%d runes, history insert-all) against every byte string of length <= %d over {a, C3, A9, EF, BF, BD, FF} that is NOT valid UTF-8 (the valid ones belong to the widths family)", b.WSet, b.WPatLen, b.BText),
+		Desc: fmt.Sprintf("the widths pattern sets (1..%d patterns of 0..%d runes, history insert-all) against every byte string of length <= %d over {a, C3, A9, EF, BF, BD, FF} that is NOT valid UTF-8 (the valid ones belong to the widths family); the same byte strings of length <= 3 as keys", b.WSet, b.WPatLen, b.BText),
 		Pats: w, Sets: wsets, Hists: []History{HAll},
-		Texts: texts(AlphaBytes, b.BText, func(t Text) bool { return !t.Valid })})
+		Texts: texts(AlphaBytes, b.BText, func(t Text) bool { return !t.Valid }), Keys: invalidKeys(3)})
 	_ = valid
 	return fs
 }
